@@ -4,7 +4,7 @@ import common
 from common import tlc, tlc_ok, tlc_must_fail, build_driver, run_driver, judge, ToolError, log
 
 TIERS = {
-    "quick":    dict(mc="MC_Eval_quick.cfg", parts=[(4, 1, 2, 12), (5, 5, 1, 3)], chains=3, rand=6000, maxlen=25),
+    "quick":    dict(mc="MC_Eval_quick.cfg", parts=[(4, 1, 2, 12), (5, 5, 1, 3)], chains=3, rand=30000, maxlen=25),
     "thorough": dict(mc="MC_Eval_thorough.cfg", parts=[(5, 1, 2, 12), (6, 6, 1, 2)], chains=4, rand=150000, maxlen=60),
 }
 
